@@ -286,9 +286,11 @@ theorem punished_has_no_stakes (P : Params) (o : Oracle) (h a : Nat) (s s' : Sta
 /-- **Slashed value goes to the total-slashed pool.** Across a whole BeginBlock every custom coin's volume and holdings move
     together, and the base-coin total (holdings + Σ reserves + accumulated rewards + slashed pool) is unchanged: what the
     delegators lose in base coin is in the slashed pool, and what they lose in another coin has left that coin's volume while
-    the reserve it was worth (the node's `CalculateSaleReturn`) moved from the coin's reserve into the slashed pool. -/
+    the reserve it was worth (the node's `CalculateSaleReturn`) moved from the coin's reserve into the slashed pool.
+    (`0 < unbond`: the period is the constant 518400 resp. 531; with period 0 a move re-frozen because its target is gone would
+    be stored under the height whose funds are deleted at the end of the same BeginBlock.) -/
 theorem begin_conserves (P : Params) (o : Oracle) (s s' : State) (r : BeginReq) (grace : Bool) (ev : List BEvent)
-    (hr : beginBlock P o s r grace = .ok (s', ev)) :
+    (hu : 0 < P.unbond) (hr : beginBlock P o s r grace = .ok (s', ev)) :
     (∀ k, k ≠ 0 → volumeOf s' k - holdings s' k = volumeOf s k - holdings s k) ∧ baseTotal s' = baseTotal s := by
   simp only [beginBlock] at hr
   cases hA : absencePhase P r.height grace r.votes { s with rewardsPool := 0 } with
@@ -301,7 +303,7 @@ theorem begin_conserves (P : Params) (o : Oracle) (s s' : State) (r : BeginReq) 
     | ok rB =>
       obtain ⟨sB, evB⟩ := rB
       simp only [hB] at hr
-      cases hC : maturityPhase r.height sB with
+      cases hC : maturityPhase P.unbond r.height sB with
       | error e => simp only [hC] at hr; cases hr
       | ok rC =>
         obtain ⟨sC, evC⟩ := rC
@@ -309,7 +311,7 @@ theorem begin_conserves (P : Params) (o : Oracle) (s s' : State) (r : BeginReq) 
         cases hr
         have fA := absencePhase_sameValue P r.height grace r.votes _ sA evA hA
         obtain ⟨b1, b2⟩ := byzPhase_conserves P o r.height r.byz sA sB evB hB
-        obtain ⟨c1, c2⟩ := maturityPhase_conserves r.height sB s' evC hC
+        obtain ⟨c1, c2⟩ := maturityPhase_conserves P.unbond r.height hu sB s' evC hC
         have h0 : ∀ k, holdings ({ s with rewardsPool := 0 } : State) k = holdings s k := fun _ => rfl
         constructor
         · intro k hk
@@ -318,9 +320,9 @@ theorem begin_conserves (P : Params) (o : Oracle) (s s' : State) (r : BeginReq) 
 
 /-- In particular the invariant of C01 survives BeginBlock. -/
 theorem begin_preserves_conserved (P : Params) (o : Oracle) (s s' : State) (r : BeginReq) (grace : Bool) (ev : List BEvent)
-    (hr : beginBlock P o s r grace = .ok (s', ev)) (hc : Conserved s) : Conserved s' := by
+    (hu : 0 < P.unbond) (hr : beginBlock P o s r grace = .ok (s', ev)) (hc : Conserved s) : Conserved s' := by
   intro k hk
-  have := (begin_conserves P o s s' r grace ev hr).1 k hk
+  have := (begin_conserves P o s s' r grace ev hu hr).1 k hk
   have := hc k hk
   omega
 
